@@ -479,22 +479,37 @@ fn flatten_thin<R: RuleType>(t: &pest_typed::iterators::ThinToken<R>, d: usize, 
     }
 }
 
-/// Pair API of a non-silent rule: children, as_token, as_thin_token (C15)
+/// Pair API of a non-silent rule: children, as_token, as_thin_token (C15); the same observation through the Position and the
+/// Span form of the whole input must be identical (`forms_agree`)
 pub fn observe_pair<'i, R: RuleType, T>(job: &'i Job) -> Value
 where
     T: ParsableTypedNode<'i, R> + pest_typed::iterators::Pair<'i, R>,
 {
-    guard(|| match T::try_parse_partial(job.full.as_str()) {
-        Ok((_, node)) => {
-            let kids: Vec<Value> = node.children().iter().map(|t| tok3(t, 0)).collect();
-            let mut tok = vec![];
-            flatten(&[node.as_token()], 0, 0, &mut tok);
-            let mut thin = vec![];
-            flatten_thin(&node.as_thin_token(), 0, 0, &mut thin);
-            json!({"ok": true, "kids": kids, "token": tok, "thin": thin})
-        }
-        Err(_) => json!({"ok": false}),
-    })
+    macro_rules! one {
+        ($input:expr) => {
+            guard(|| match T::try_parse_partial($input) {
+                Ok((_, node)) => {
+                    let kids: Vec<Value> = node.children().iter().map(|t| tok3(t, 0)).collect();
+                    let mut tok = vec![];
+                    flatten(&[node.as_token()], 0, 0, &mut tok);
+                    let mut thin = vec![];
+                    flatten_thin(&node.as_thin_token(), 0, 0, &mut thin);
+                    json!({"ok": true, "kids": kids, "token": tok, "thin": thin})
+                }
+                Err(_) => json!({"ok": false}),
+            })
+        };
+    }
+    let mut v = one!(job.full.as_str());
+    let p = one!(Position::from_start(job.full.as_str()));
+    let sp = one!(Span::new_full(job.full.as_str()));
+    let agree = p == v && sp == v;
+    if !agree {
+        v["pos_form"] = p;
+        v["span_form"] = sp;
+    }
+    v["forms_agree"] = json!(agree);
+    v
 }
 
 /// Tree helpers of a rule that carries content: pre-order, level-order, rendering (C15)
@@ -502,30 +517,44 @@ pub fn observe_tree<'i, R: RuleType, T>(job: &'i Job) -> Value
 where
     T: ParsableTypedNode<'i, R> + pest_typed::iterators::PairTree<'i, R>,
 {
-    guard(|| match T::try_parse_partial(job.full.as_str()) {
-        Ok((_, node)) => {
-            let mut pre = vec![];
-            let r1: Result<(), ()> = node.iterate_pre_order(|t, d| {
-                pre.push(json!([format!("{:?}", t.rule), t.span.start(), t.span.end(), d]));
-                Ok(())
-            });
-            let mut lvl = vec![];
-            let r2: Result<(), ()> = node.iterate_level_order(|t, rest| {
-                lvl.push(json!([format!("{:?}", t.rule), t.span.start(), t.span.end(), rest]));
-                Ok(())
-            });
-            // an error returned by the callback must stop the walk and be passed on
-            let mut n = 0;
-            let r3: Result<(), u8> = node.iterate_pre_order(|_, _| {
-                n += 1;
-                if n == 2 { Err(7) } else { Ok(()) }
-            });
-            let render = node.format_as_tree().unwrap_or_else(|_| "FMT-ERROR".to_string());
-            json!({"ok": true, "pre": pre, "lvl": lvl, "render": render, "iter_ok": r1.is_ok() && r2.is_ok(),
-                   "stop": [n, r3.is_err()]})
-        }
-        Err(_) => json!({"ok": false}),
-    })
+    macro_rules! one {
+        ($input:expr) => {
+            guard(|| match T::try_parse_partial($input) {
+                Ok((_, node)) => {
+                    let mut pre = vec![];
+                    let r1: Result<(), ()> = node.iterate_pre_order(|t, d| {
+                        pre.push(json!([format!("{:?}", t.rule), t.span.start(), t.span.end(), d]));
+                        Ok(())
+                    });
+                    let mut lvl = vec![];
+                    let r2: Result<(), ()> = node.iterate_level_order(|t, rest| {
+                        lvl.push(json!([format!("{:?}", t.rule), t.span.start(), t.span.end(), rest]));
+                        Ok(())
+                    });
+                    // an error returned by the callback must stop the walk and be passed on
+                    let mut n = 0;
+                    let r3: Result<(), u8> = node.iterate_pre_order(|_, _| {
+                        n += 1;
+                        if n == 2 { Err(7) } else { Ok(()) }
+                    });
+                    let render = node.format_as_tree().unwrap_or_else(|_| "FMT-ERROR".to_string());
+                    json!({"ok": true, "pre": pre, "lvl": lvl, "render": render, "iter_ok": r1.is_ok() && r2.is_ok(),
+                           "stop": [n, r3.is_err()]})
+                }
+                Err(_) => json!({"ok": false}),
+            })
+        };
+    }
+    let mut v = one!(job.full.as_str());
+    let p = one!(Position::from_start(job.full.as_str()));
+    let sp = one!(Span::new_full(job.full.as_str()));
+    let agree = p == v && sp == v;
+    if !agree {
+        v["pos_form"] = p;
+        v["span_form"] = sp;
+    }
+    v["forms_agree"] = json!(agree);
+    v
 }
 
 /// Raw combinators used directly from the runtime crate (C19): parse and check path with a fresh stack / tracker.
